@@ -1759,8 +1759,10 @@ func (vc *FuncVC) localVars() map[string]SVal {
 		return b == nil || vc.curBlock == nil || b == vc.curBlock || b.Dominates(vc.curBlock)
 	}
 	for name, bs := range vc.bindings {
+		key := name
 		if _, clash := vc.params[name]; clash {
-			continue
+			// a parameter that the code reassigns: the plain name stays the entry value, now(name) is the current one
+			key = "@now:" + name
 		}
 		// the binding made in the closest dominating block (last one within a block)
 		var best *binding
@@ -1774,7 +1776,7 @@ func (vc *FuncVC) localVars() map[string]SVal {
 			}
 		}
 		if best != nil {
-			m[name] = best.v
+			m[key] = best.v
 		}
 	}
 	for name, v := range vc.allocs {
